@@ -73,6 +73,10 @@ fn exact_pair(a: CQ, b: CQ) -> Result<(), String> {
     ensure!((lt as u8 + gt as u8 + eq as u8) == 1, "trichotomy fails for {:?}, {:?}: lt={} eq={} gt={}", za, zb, lt, eq, gt);
     let lex = if a.re != b.re { a.re < b.re } else { a.im < b.im };
     ensure!(lt == lex, "< is not the lexicographic order on {:?}, {:?}", za, zb);
+    // every comparison operator and partial_cmp tell the same story (an implementation may override lt / le / gt / ge one by one)
+    ensure!((za <= zb) == (lt || eq) && (za >= zb) == (gt || eq) && (za != zb) == !eq, "<= / >= / != disagree with < / > / == on {:?}, {:?}: le={} ge={} ne={}", za, zb, za <= zb, za >= zb, za != zb);
+    let want = if eq { std::cmp::Ordering::Equal } else if lt { std::cmp::Ordering::Less } else { std::cmp::Ordering::Greater };
+    ensure!(za.partial_cmp(&zb) == Some(want), "partial_cmp({:?}, {:?}) = {:?} but the operators say {:?}", za, zb, za.partial_cmp(&zb), want);
     ensure!(za.clone() == za, "clone != original");
     Ok(())
 }
@@ -210,6 +214,9 @@ fn f64_pair(a: Cmplx, b: Cmplx, acc: &mut Acc) -> Result<(), String> {
     let gt = a > b;
     let eq = a == b;
     ensure!((lt as u8 + gt as u8 + eq as u8) == 1, "trichotomy fails for {:?}, {:?}", a, b);
+    ensure!((a <= b) == (lt || eq) && (a >= b) == (gt || eq) && (a != b) == !eq, "<= / >= / != disagree with < / > / == on {:?}, {:?}", a, b);
+    let want = if eq { std::cmp::Ordering::Equal } else if lt { std::cmp::Ordering::Less } else { std::cmp::Ordering::Greater };
+    ensure!(a.partial_cmp(&b) == Some(want), "partial_cmp({:?}, {:?}) = {:?} but the operators say {:?}", a, b, a.partial_cmp(&b), want);
     Ok(())
 }
 
@@ -325,7 +332,7 @@ impl Sut for St {
 fn main() {
     let ctx = Ctx::from_args("C13");
     ctx.level("model_checking");
-    ctx.rule("E1: all 1296 ordered pairs of Complex<Rat> with components in {0,1,-1,2,1/2,-3/2}: + - * / neg conj abs_sqr, the mixed real forms and every compound assignment against independently coded field formulae (exact); identities; equality and lexicographic order (trichotomy; transitivity on all triples of 25 values). Complex<f64>: all 11^4 pairs with components in {0,-0,+-1,3,1/3,-7.5,+-1e-100,+-1e100}: double-double reference, normwise error <= 8 eps, each part of a product / quotient whose two partial products do not cancel to 8 / 16 eps relative to itself, every compound / mixed form bit-identical to its binary form. E2: BFS over sequences of compound assignments (complex and real operands), negation and conjugation on one Complex<Rat>. Non-trivial: pairs with all four components non-zero, purely real/imaginary operands, in-place multiply/divide.");
+    ctx.rule("E1: all 1296 ordered pairs of Complex<Rat> with components in {0,1,-1,2,1/2,-3/2}: + - * / neg conj abs_sqr, the mixed real forms and every compound assignment against independently coded field formulae (exact); identities; equality and lexicographic order (trichotomy; <, <=, >, >=, != and partial_cmp mutually consistent; transitivity on all triples of 25 values). Complex<f64>: all 11^4 pairs with components in {0,-0,+-1,3,1/3,-7.5,+-1e-100,+-1e100}: double-double reference, normwise error <= 8 eps, each part of a product / quotient whose two partial products do not cancel to 8 / 16 eps relative to itself, every compound / mixed form bit-identical to its binary form. E2: BFS over sequences of compound assignments (complex and real operands), negation and conjugation on one Complex<Rat>. Non-trivial: pairs with all four components non-zero, purely real/imaginary operands, in-place multiply/divide.");
     ctx.assume("f64 components stay inside 1e-100..1e100 so that no intermediate overflows or underflows");
     for n in ["f64_add_normwise_error", "f64_sub_normwise_error", "f64_mul_normwise_error", "f64_div_normwise_error"] {
         ctx.threshold(n, ULP_BOUND);
@@ -394,7 +401,7 @@ fn main() {
                 if a < b {
                     ensure!(b > a && !(b < a) && a != b, "< / > inconsistent");
                 }
-                ensure!((a <= b) == (a < b || a == b), "<= inconsistent");
+                ensure!((a <= b) == (a < b || a == b) && (a >= b) == (a > b || a == b), "<= / >= inconsistent");
                 // Rat twins (skip the 1e100 letter)
                 let ok = |z: Cmplx| z.real.abs() < 1e50 && z.imag.abs() < 1e50;
                 if ok(a) && ok(b) && ok(c) {
